@@ -194,10 +194,13 @@ inductive Op (K P : Type)
   | props (sc : Scope) (acct : Nat)
   | restart
   | convertWO
+  | deriveCache (sc : Scope) (acct acctChild branch index : Nat)   -- `DeriveFromKeyPathCache` (no database access)
+  | rename (sc : Scope) (acct name : Nat)                          -- `RenameAccount`
 
 inductive Err
   | locked | watchOnly | wrongPass | crypto | notFound | acctNotFound | dupAddr | dupAcct | tooMany
   | invalidAcct | keyChain | scopeNotFound | badHandle | notKey | notScript | other | notCreated | poisoned
+  | notCached
   deriving DecidableEq, Repr
 
 def Err.str : Err → String
@@ -206,6 +209,7 @@ def Err.str : Err → String
   | .tooMany => "toomany" | .invalidAcct => "invalidacct" | .keyChain => "keychain"
   | .scopeNotFound => "scopenotfound" | .badHandle => "badhandle" | .notKey => "notkey"
   | .notScript => "notscript" | .other => "other" | .notCreated => "notcreated" | .poisoned => "poisoned"
+  | .notCached => "notcached"
 
 /-- what an address object reports about itself (`DerivationInfo`, `Internal`, `Imported`, `AddrType`, …) -/
 structure Info where
